@@ -6,6 +6,7 @@ import (
 	"com.tuntun.rangers/node/src/common"
 	"com.tuntun.rangers/node/src/middleware/db"
 	"com.tuntun.rangers/node/src/middleware/log"
+	"com.tuntun.rangers/node/src/middleware/mysql"
 	"com.tuntun.rangers/node/src/middleware/types"
 	"com.tuntun.rangers/node/src/storage/account"
 	symx "com.tuntun.rangers/node/src/zz_symx"
@@ -14,8 +15,15 @@ import (
 )
 
 // a pool over in-memory stores, built like newTransactionPool (without the expiry goroutine)
+var c17Init bool
+
 func c17Pool(limit int) *TxPool {
 	txPoolLogger = log.GetLoggerByIndex(log.TxPoolLogConfig, "0")
+	if !c17Init {
+		// MarkExecuted hands the receipts to the sqlite log index in a goroutine
+		mysql.InitMySql()
+		c17Init = true
+	}
 	pool := &TxPool{}
 	pool.received = &simpleContainer{data: gmap.NewListMap(true), limit: limit}
 	pool.evictedTxs, _ = lru.New(txCacheSize)
